@@ -421,6 +421,24 @@ def s_class_containers():
     )
 
 
+def b_class_list_small():
+    from typing import List
+
+    from .fixtures import Base
+
+    p = _ap()
+    p.add_argument("--lb", type=List[Base], default=[])
+    return p
+
+
+def s_class_list_small():
+    if not S.flag("lb?"):
+        return dict(lb=[])
+    if S.flag("lb0.sub1"):
+        return dict(lb=[dict(class_path="vf.fixtures.Sub1", init_args=dict(z=S.int("lb0.z")))])
+    return dict(lb=[dict(class_path="vf.fixtures.Base", init_args=dict(w=S.int("lb0.w")))])
+
+
 def b_class_group():
     from .fixtures import Sub2
 
@@ -459,6 +477,7 @@ SHAPES = [
     Shape("subcommands", b_subcommands, s_subcommands),
     Shape("subclass_default", b_subclass_default, s_subclass_default, tier="quick"),
     Shape("class_group", b_class_group, s_class_group, tier="quick"),
+    Shape("class_list_small", b_class_list_small, s_class_list_small, tier="thorough"),
     Shape("holder", b_holder, s_holder, tier="thorough"),
     Shape("class_containers", b_class_containers, s_class_containers, tier="thorough"),
 ]
